@@ -1,7 +1,7 @@
 (* C17: null space, invariance, analytic values, homogeneity and spacing laws of the regularisers. *)
 From Coq Require Import ZArith List Field Ring Lia Bool.
 From DV Require Import Base.Field Base.FieldFacts Base.LinAlg Model.Losses Model.RegStencil Model.Regularisers
-  Proofs.C16Lists Proofs.C17Stencil.
+  Proofs.C16Lists Proofs.C17Stencil Proofs.C17Sobel.
 Import ListNotations.
 Local Open Scope fld_scope.
 
@@ -88,51 +88,51 @@ Proof. unfold dims. intro H. apply in_seq in H. lia. Qed.
 
 Definition spacing_ok (sh : list Z) (sp : list K) : Prop := forall d, (d < length sh)%nat -> hs sp d <> 0.
 
-(* forward_central_backward: every affine field is flat at every lattice point *)
-Lemma fcb_affine_flat sh sp (v : field) t A (i : idx) :
-  is_affine_field v t A -> spacing_ok sh sp -> length i = length sh -> flat_at MFcb sh sp v i.
+(* every derivative mode: every affine field is flat at every lattice point *)
+Lemma affine_flat m sh sp (v : field) t A (i : idx) :
+  is_affine_field v t A -> spacing_ok sh sp -> length i = length sh -> flat_at m sh sp v i.
 Proof.
   intros Hv Hsp Hl c d e Hc Hd He. apply in_dims in Hd. apply in_dims in He.
-  rewrite (d2_ext MFcb sh sp d e (comp v c) (aff (t c) (A c))) by (intro j; apply Hv).
-  apply (d2_fcb_aff K Kf Kc); [apply Hsp; lia | lia].
+  rewrite (d2_ext m sh sp d e (comp v c) (aff (t c) (A c))) by (intro j; apply Hv).
+  apply (d2_aff K Kf Kc); [apply Hsp; lia | lia].
 Qed.
 
-(* ---- analytic values of the first-order terms on affine fields (forward_central_backward) ---------- *)
+(* ---- analytic values of the first-order terms on affine fields (every derivative mode) -------------- *)
 Section Affine.
-Variables (sh : list Z) (sp : list K) (v : field) (t : nat -> K) (A : nat -> list K) (i : idx).
+Variables (m : dmode) (sh : list Z) (sp : list K) (v : field) (t : nat -> K) (A : nat -> list K) (i : idx).
 Hypothesis Hv : is_affine_field v t A.
 Hypothesis Hsp : spacing_ok sh sp.
 Hypothesis Hl : length i = length sh.
 
 Definition J (c d : nat) : K := nth d (A c) 0 / hs sp d.    (* Jacobian entry d u_c / d x_d *)
 
-Lemma d1_affine c d : In d (dims sh) -> d1 MFcb sh sp d (comp v c) i = J c d.
+Lemma d1_affine c d : In d (dims sh) -> d1 m sh sp d (comp v c) i = J c d.
 Proof.
   intro Hd. apply in_dims in Hd.
-  rewrite (d1_ext MFcb sh sp d (comp v c) (aff (t c) (A c))) by (intro j; apply Hv).
-  apply (d1_fcb_aff K Kf Kc); [apply Hsp; lia | lia].
+  rewrite (d1_ext m sh sp d (comp v c) (aff (t c) (A c))) by (intro j; apply Hv).
+  apply (d1_aff K Kf Kc); [apply Hsp; lia | lia].
 Qed.
 
 Lemma diffusion_affine :
-  diffusion_pt MFcb sh sp v i = sumf (dims sh) (fun d => sumf (dims sh) (fun c => sq (J c d))) / (1 + 1).
+  diffusion_pt m sh sp v i = sumf (dims sh) (fun d => sumf (dims sh) (fun c => sq (J c d))) / (1 + 1).
 Proof.
   unfold diffusion_pt. f_equal. apply sumf_ext. intros d Hd. apply sumf_ext. intros c Hc.
   rewrite (d1_affine c d Hd). reflexivity.
 Qed.
 
 Lemma tv_affine (fabs : K -> K) :
-  tv_pt MFcb sh sp v i fabs = sumf (dims sh) (fun d => sumf (dims sh) (fun c => fabs (J c d))).
+  tv_pt m sh sp v i fabs = sumf (dims sh) (fun d => sumf (dims sh) (fun c => fabs (J c d))).
 Proof.
   unfold tv_pt. apply sumf_ext. intros d Hd. apply sumf_ext. intros c Hc. rewrite (d1_affine c d Hd). reflexivity.
 Qed.
 
-Lemma divergence_affine : div_pt MFcb sh sp v i = sq (sumf (dims sh) (fun c => J c c)) / (1 + 1).
+Lemma divergence_affine : div_pt m sh sp v i = sq (sumf (dims sh) (fun c => J c c)) / (1 + 1).
 Proof.
   unfold div_pt. f_equal. f_equal. apply sumf_ext. intros c Hc. apply (d1_affine c c Hc).
 Qed.
 
 Lemma elasticity_affine lambda mu :
-  elasticity_pt MFcb sh sp v i lambda mu
+  elasticity_pt m sh sp v i lambda mu
   = sq (sumf (dims sh) (fun c => J c c)) * (lambda / (1 + 1))
     + sumf (dims sh) (fun j => sumf (dims sh) (fun k => sq (J j k + J k j) * (mu / ((1 + 1) * (1 + 1))))).
 Proof.
@@ -167,16 +167,16 @@ Qed.
 End ExactD1.
 
 (* translations: all first-order terms vanish *)
-Lemma translation_zero sh sp (v : field) t (i : idx) (fabs : K -> K) lambda mu :
+Lemma translation_zero m sh sp (v : field) t (i : idx) (fabs : K -> K) lambda mu :
   is_affine_field v t (fun _ => []) -> spacing_ok sh sp -> length i = length sh -> fabs 0 = 0 ->
-  diffusion_pt MFcb sh sp v i = 0 /\ tv_pt MFcb sh sp v i fabs = 0 /\ div_pt MFcb sh sp v i = 0 /\
-  elasticity_pt MFcb sh sp v i lambda mu = 0.
+  diffusion_pt m sh sp v i = 0 /\ tv_pt m sh sp v i fabs = 0 /\ div_pt m sh sp v i = 0 /\
+  elasticity_pt m sh sp v i lambda mu = 0.
 Proof.
   intros Hv Hsp Hl Hf.
   assert (HJ : forall c d, J sp (fun _ => []) c d = 0).
   { intros c d. unfold J. rewrite (nth_nil_zero K). apply (div_zero_l K Kf). }
-  rewrite (diffusion_affine sh sp v t _ i Hv Hsp Hl), (tv_affine sh sp v t _ i Hv Hsp Hl),
-    (divergence_affine sh sp v t _ i Hv Hsp Hl), (elasticity_affine sh sp v t _ i Hv Hsp Hl).
+  rewrite (diffusion_affine m sh sp v t _ i Hv Hsp Hl), (tv_affine m sh sp v t _ i Hv Hsp Hl),
+    (divergence_affine m sh sp v t _ i Hv Hsp Hl), (elasticity_affine m sh sp v t _ i Hv Hsp Hl).
   repeat split.
   - rewrite (sumf_zero (dims sh)); [apply (div_zero_l K Kf)|]. intros d _. apply sumf_zero. intros c _. rewrite HJ. unfold sq. ring.
   - apply sumf_zero. intros d _. apply sumf_zero. intros c _. rewrite HJ. exact Hf.
